@@ -216,14 +216,17 @@ Definition ep_sub (e : endpoint) (k : Z) : endpoint :=
 (* needs_resolve is computed by the constructor only *)
 Record span := mkSpan { sp_start : endpoint; sp_end : endpoint; sp_step : Z; sp_needs : bool }.
 
-(* Span(from, until, step); None = the contextual default of that side *)
+(* Span(from, until, step); None = the contextual default of that side.  The defaults, needs_resolve and the final
+   frequency check are the fragments regenerated from Span.__init__ (the gen_span_init fragments), instantiated with the module-level
+   contextual periods start = Ctx true 0, end = Ctx false 0 *)
 Definition span_make (a b : option endpoint) (step : Z) : dres span :=
-  let s := match a with Some e => e | None => Ctx (step >? 0) 0 end in
-  let e := match b with Some e => e | None => Ctx (negb (step >? 0)) 0 end in
-  let needs := ep_needs s || ep_needs e in
+  let s := gen_span_init_start endpoint (Ctx true 0) (Ctx false 0) a b step in
+  let e := gen_span_init_end endpoint (Ctx true 0) (Ctx false 0) a b step in
+  let needs := gen_span_init_needs endpoint ep_needs s e in
   if needs then Ok (mkSpan s e step true)
   else match s, e with
-       | At p, At q => if check_periods p (Some q) then Ok (mkSpan s e step false) else Err ErrFreq
+       | At p, At q => if negb gen_span_init_checks_when_resolved || check_periods p (Some q)
+                       then Ok (mkSpan s e step false) else Err ErrFreq
        | _, _ => Err ErrFreq
        end.
 
@@ -328,8 +331,13 @@ Definition ep_resolve (c : context) (e : endpoint) : endpoint :=
   | Ctx false o => At (padd (c_end c) o)
   end.
 
+(* bool(end point): Period.__bool__ = not needs_resolve, ContextualPeriod.__bool__ = False *)
+Definition ep_truthy (e : endpoint) : bool := negb (ep_needs e).
+
+(* Span.resolve(context): the statement shape is regenerated from the source (gen_span_resolve); the resolved span is
+   built by the constructor, which re-checks the frequencies of its two ends *)
 Definition span_resolve (c : context) (s : span) : dres span :=
-  span_make (Some (ep_resolve c (sp_start s))) (Some (ep_resolve c (sp_end s))) (sp_step s).
+  gen_span_resolve endpoint (dres span) ep_truthy (ep_resolve c) span_make (sp_start s) (sp_end s) (sp_step s).
 
 (* span == other (both resolved) *)
 Definition span_eq (s t : span) : dres bool :=
